@@ -1018,20 +1018,70 @@ def ldexp_pow2(t, k):
     return SymFP(z3.fpBVToFP(bits, z3.FPSort(eb, sb)), t)
 
 
-def ldexp_general(x, k):
-    """numpy.ldexp(x, k) = RNE(x * 2**k) with a single rounding: computed exactly in a format with the same precision
-    and a 15-bit exponent (so the scaling is exact for |k| < 16000), then rounded to the format of x"""
+def encode_rne(sign, m, q, fmt, W):
+    """IEEE bits of (-1)^sign * m * 2^q rounded to nearest-even; m: W-bit vector holding a non-negative integer below
+    2^(W-3), q: W-bit signed vector.  Pure bit-vector arithmetic (no FP multiplier in the SAT problem)."""
+    eb, sb = fmt
+    n = eb + sb
+    bias = (1 << (eb - 1)) - 1
+    emin = 1 - bias
+    BV = lambda v: z3.BitVecVal(v, W)  # noqa
+    # bit length of m
+    bl = BV(0)
+    for i in range(W - 2):
+        bl = z3.If(z3.Extract(i, i, m) == 1, BV(i + 1), bl)
+    e1 = q + bl  # value in [2^(e1-1), 2^e1)
+    # target quantum exponent: normal -> e1 - sb ; subnormal -> emin - (sb-1)
+    qt = z3.If(e1 - 1 >= emin, e1 - sb, BV(emin - (sb - 1)))
+    sh = qt - q  # > 0: drop `sh` low bits with rounding ; <= 0: shift left (exact)
+    big = sh >= W - 2
+    shc = z3.If(sh > 0, z3.If(big, BV(W - 2), sh), BV(0))
+    quo = z3.LShR(m, shc)
+    rem = m - (quo << shc)
+    half = z3.If(shc > 0, BV(1) << (shc - 1), BV(0))
+    up = z3.And(shc > 0, z3.Or(z3.UGT(rem, half), z3.And(rem == half, z3.Extract(0, 0, quo) == 1)))
+    sig = z3.If(sh > 0, quo + z3.If(up, BV(1), BV(0)), m << (0 - sh))
+    sig = z3.If(big, BV(0), sig)
+    # sig is the integer significand at quantum 2^qt, sig <= 2^sb (a carry to 2^sb moves to the next binade)
+    carry = sig == (1 << sb)
+    sig2 = z3.If(carry, BV(1 << (sb - 1)), sig)
+    qt2 = z3.If(carry, qt + 1, qt)
+    is_norm = z3.UGE(sig2, BV(1 << (sb - 1)))
+    expfield = z3.If(is_norm, qt2 + (sb - 1) + bias, BV(0))
+    frac = z3.Extract(sb - 2, 0, sig2)
+    inf = expfield >= (1 << eb) - 1
+    bits_mag = z3.If(inf, z3.BitVecVal(((1 << eb) - 1) << (sb - 1), n - 1), z3.Concat(z3.Extract(eb - 1, 0, expfield), frac))
+    bits_mag = z3.If(m == 0, z3.BitVecVal(0, n - 1), bits_mag)
+    return z3.Concat(sign, bits_mag)
+
+
+def decode_fields(x):
+    """(sign bit, integer significand m, quantum exponent q) of a finite float: value = (-1)^sign * m * 2^q"""
     eb, sb = x.fmt
     W = eng().W
-    wide = z3.FPSort(15, sb)
-    xw = z3.fpFPToFP(RNE, x.e, wide)
+    bits = z3.fpToIEEEBV(x.e)
+    n = eb + sb
+    sign = z3.Extract(n - 1, n - 1, bits)
+    ef = z3.ZeroExt(W - eb, z3.Extract(n - 2, sb - 1, bits))
+    fr = z3.ZeroExt(W - (sb - 1), z3.Extract(sb - 2, 0, bits))
+    bias = (1 << (eb - 1)) - 1
+    m = z3.If(ef == 0, fr, fr | z3.BitVecVal(1 << (sb - 1), W))
+    q = z3.If(ef == 0, z3.BitVecVal(1 - bias - (sb - 1), W), ef - z3.BitVecVal(bias + sb - 1, W))
+    return sign, m, q
+
+
+def ldexp_general(x, k):
+    """numpy.ldexp(x, k) for finite x: the value x * 2**k rounded once to nearest-even (inf/nan/zero pass through)"""
+    eb, sb = x.fmt
+    W = eng().W
+    sign, m, q = decode_fields(x)
     ke = k.e if isinstance(k, SymInt) else z3.BitVecVal(int(k), W)
-    bias = (1 << 14) - 1
     if isinstance(k, SymInt):
-        eng().side.append(("ldexp-exponent-range", z3.And(ke > -16000, ke < 16000)))
-    efield = z3.Extract(14, 0, ke + z3.BitVecVal(bias, W))
-    pw = z3.fpBVToFP(z3.Concat(z3.BitVecVal(0, 1), efield, z3.BitVecVal(0, sb - 1)), wide)
-    return SymFP(z3.fpFPToFP(RNE, z3.fpMul(RNE, xw, pw), z3.FPSort(eb, sb)), x.t)
+        eng().side.append(("ldexp-exponent-range", z3.And(ke > -(1 << 20), ke < (1 << 20))))
+    bits = encode_rne(sign, m, q + ke, x.fmt, W)
+    special = z3.Or(z3.fpIsInf(x.e), z3.fpIsNaN(x.e))
+    r = z3.If(special, x.e, z3.fpBVToFP(bits, z3.FPSort(eb, sb)))
+    return SymFP(r, x.t)
 
 
 def _np_ldexp(x, k):
